@@ -461,7 +461,7 @@ func c14ConcTrace(tr *kit.Tracer, id, n, g, iters int, seed int64) error {
 
 // stats: 1 kHz picks, every call completes 5 ms later; connection 1 fails every call in phase 1
 // and recovers in phase 2
-func c14Stats(n, total int, seed int64) (kit.M, error) {
+func c14Stats(n, total int, seed int64, deadLat int64) (kit.M, error) {
 	cp, err := newC14Picker(n, seed^0x5eed)
 	if err != nil {
 		return nil, err
@@ -483,15 +483,19 @@ func c14Stats(n, total int, seed int64) (kit.M, error) {
 		for k := 0; k < total; k++ {
 			cp.clock.Advance(time.Millisecond)
 			now := cp.ms()
-			for len(q) > 0 && q[0].at <= now {
-				p := q[0]
-				q = q[1:]
+			rest := q[:0]
+			for _, p := range q {
+				if p.at > now {
+					rest = append(rest, p)
+					continue
+				}
 				var e error
 				if fail && p.c == 1 {
 					e = status.Error(codes.Unavailable, "down")
 				}
 				p.don(balancer.DoneInfo{Err: e})
 			}
+			q = rest
 			res, err := cp.picker.Pick(balancer.PickInfo{FullMethodName: "/verif/C14", Ctx: context.Background()})
 			if err != nil {
 				return kit.M{"error": err.Error()}
@@ -500,7 +504,11 @@ func c14Stats(n, total int, seed int64) (kit.M, error) {
 			if c == 0 {
 				return kit.M{"error": "pick returned a connection that is not ready"}
 			}
-			q = append(q, pend{c: c, at: now + 5, don: res.Done})
+			lat := int64(5)
+			if fail && c == 1 {
+				lat = deadLat // the failing backend answers after deadLat ms (fails fast when < 5)
+			}
+			q = append(q, pend{c: c, at: now + lat, don: res.Done})
 			if k >= warm {
 				cnt[c-1]++
 				ref := lastPick[c]
@@ -528,7 +536,7 @@ func c14Stats(n, total int, seed int64) (kit.M, error) {
 	}
 	p1 := run(1, true)
 	p2 := run(2, false)
-	return kit.M{"n": n, "total": total, "phase1": p1, "phase2": p2}, nil
+	return kit.M{"n": n, "dead_lat_ms": deadLat, "total": total, "phase1": p1, "phase2": p2}, nil
 }
 
 func TestVerifC14(t *testing.T) {
@@ -603,12 +611,14 @@ func TestVerifC14(t *testing.T) {
 		}
 	case "stats":
 		var all []kit.M
-		for _, n := range []int{3, 8} {
-			m, err := c14Stats(n, kit.EnvInt("VERIF_C14_OPS", 20000), seed*1000003+int64(n))
-			if err != nil {
-				t.Fatal(err)
+		for _, n := range []int{3, 5, 8} {
+			for _, deadLat := range []int64{5, 1} {
+				m, err := c14Stats(n, kit.EnvInt("VERIF_C14_OPS", 20000), seed*1000003+int64(n), deadLat)
+				if err != nil {
+					t.Fatal(err)
+				}
+				all = append(all, m)
 			}
-			all = append(all, m)
 		}
 		b, _ := json.Marshal(all)
 		if err := os.WriteFile(out, b, 0o644); err != nil {
